@@ -54,7 +54,7 @@ def corpus():
 def run(ctx):
     N = Names()
     batch = CoqBatch("C01", engine.IMPORTS, shard=160)
-    n_cases = ctx.n(300, 6000)
+    n_cases = ctx.n(700, 6000)
     cases = corpus()
     while len(cases) < n_cases + 4:
         cases.append(make_case(ctx.rng, not ctx.quick()))
